@@ -151,6 +151,16 @@ func (ex *Exec) binop(fr *frame, op token.Token, t types.Type, x, y Value) Value
 	}
 	_, sx := x.(*Term)
 	_, sy := y.(*Term)
+	if (sx || sy) && ex.eqConst != nil {
+		if c, ok := ex.resolve(x).(*Term); ok && c.IsConst() {
+			x, sx = termToValue(c, t), false
+		}
+		if op != token.SHL && op != token.SHR {
+			if c, ok := ex.resolve(y).(*Term); ok && c.IsConst() {
+				y, sy = termToValue(c, t), false
+			}
+		}
+	}
 	if !sx && !sy {
 		return ex.binopConcrete(fr, op, t, x, y)
 	}
@@ -759,6 +769,20 @@ func (ex *Exec) rangeIter(fr *frame, x Value, t types.Type) iter {
 		ex.inconclusive("range over opaque: " + x.Why)
 	}
 	panic(fmt.Sprintf("cannot range over %T", x))
+}
+
+// termToValue converts a constant term to the concrete representation for type t.
+func termToValue(c *Term, t types.Type) Value {
+	switch c.Sort {
+	case SBool:
+		return c.B
+	case SString:
+		return c.S
+	}
+	if isFloat(t) {
+		return float64(c.I)
+	}
+	return c.I
 }
 
 func fmtFloat(f float64) string { return strconv.FormatFloat(f, 'f', -1, 64) }
